@@ -625,9 +625,7 @@ class World:
         ar = self.real[node.id]
         self.opdesc = how
         apath = ".".join(self.path_of(node))
-        if how == "resolve_target" and ar.resolved:
-            # resolve_target() on a resolved alias looks the path up again: it can re-target the alias
-            node.attached = self.last_mutation = self.stepno
+        again = how == "resolve_target" and ar.resolved
         self.trace.append(["resolve", apath, how, "-> " + ar.target_path])
         try:
             if how == "target":
@@ -637,8 +635,13 @@ class World:
             else:
                 call("op-raises", ar.resolve_target, what="alias.resolve_target()", allowed=self.allowed_alias_errors)
             self.classes["resolve:ok"] += 1
+            if again:
+                # resolve_target() on a resolved alias looks the path up again: it can re-target the alias
+                node.attached = self.last_mutation = self.stepno
         except self.allowed_alias_errors as exc:
             self.classes["resolve:" + type(exc).__name__] += 1
+            if again:
+                self.last_mutation = self.stepno  # the state of the chain after a failed re-resolution is not specified
         return []
 
     # -- retarget
